@@ -75,14 +75,15 @@ def main(names):
             viol = [l for l in out.splitlines() if l.startswith('VIOLATION')]
             whats = {}
             first = None
-            for f in sorted(glob.glob('/verif/replays/%s-*.json' % check), key=lambda x: int(x.rsplit('-', 1)[1][:-5])):
+            files = [l.split('replay=')[1].split()[0] for l in viol if 'replay=' in l]
+            for f in files:
                 d = json.load(open(f))
                 whats['%s: %s' % (d.get('kind'), d.get('what'))] = whats.get('%s: %s' % (d.get('kind'), d.get('what')), 0) + 1
                 if first is None and 'scenario' in d:
                     first = f
             r1 = r2 = None
             if first:
-                keep = '/verif/replays/_mutant_%s.json' % name
+                keep = '/verif/scratch/_mutant_%s.json' % name
                 sh('cp %s %s' % (first, keep))
                 r1, o1 = sh('cd /verif && timeout 600 bin/check %s --replay %s' % (check, keep), {'VERIF_REPO': WT})
                 r2, o2 = sh('cd /verif && timeout 600 bin/check %s --replay %s' % (check, keep))
